@@ -133,6 +133,54 @@ def run_conv_dense(case, seed, R):
     R.outcome('dense')
 
 
+
+# object dtype alphabet: masks (bool), camera counts (uint8/uint16/int32), float32 -- PSF stays floating point
+OBJ_DTYPES = {'float64': 1.5, 'float32': 1.5, 'bool': True, 'uint8': 255, 'uint16': 65535, 'int32': -70001}
+
+
+def dense_as(shape, seed, salt, dt):
+    g = np.abs(dense(shape, seed, salt, complex_=False))
+    if dt == 'bool':
+        m = g > 0.6
+        m.flat[0] = True
+        return m
+    if dt.startswith('float'):
+        return g.astype(dt)
+    top = {'uint8': 255, 'uint16': 65535, 'int32': 2 ** 31 - 1}[dt]
+    a = np.minimum(np.floor(g / g.max() * top), top).astype(dt)
+    if dt == 'int32':
+        a.flat[::2] *= -1
+    return a
+
+
+def run_conv_dtype(case, seed, R):
+    n0, n1, dt = case['n0'], case['n1'], case['dtype']
+    shape = (n0, n1)
+    N = n0 * n1
+    sig = f'conv:dtype:{dt}'
+    n2 = lambda x: float(np.sqrt((np.asarray(x, dtype=float) ** 2).sum()))   # noqa
+    for hdt in ('float64', 'float32'):
+        h = (np.abs(dense(shape, seed, 40, complex_=False)) * 0.37 + 0.01).astype(hdt)
+        eps = np.finfo(np.float32).eps if 'float32' in (dt, hdt) else EPS
+        h64 = h.astype(float)
+        objs = []
+        if hdt == 'float64':
+            for p in range(N):
+                d = np.zeros(shape, dtype=dt)
+                d.flat[p] = OBJ_DTYPES[dt]
+                objs.append((d, f'impulse {divmod(p, n1)} of dtype {dt}'))
+        objs.append((dense_as(shape, seed, 41, dt), f'dense {dt} object'))
+        for o, label in objs:
+            o64 = o.astype(float)
+            tol = 400 * eps * max(n2(o64) * n2(h64), 1e-300)
+            want = ref_conv(o64, h64)
+            got = R.call(convolution.conv, o, h)
+            R.expect_close(got, want, tol, sig, f'conv({label}, {hdt} PSF) in {shape} vs float64 reference')
+            got = R.call(convolution.conv, h, o)
+            R.expect_close(got, want, tol, sig, f'conv({hdt} PSF, {label}) in {shape} vs float64 reference')
+    R.nontrivial(N > 1)
+    R.outcome(dt)
+
 # ---------------------------------------------------------------------------------------------
 # apply_transfer_functions
 
@@ -245,9 +293,11 @@ def as_perm(A, tol):
 
 def run_atf(case, seed, R):
     n0, n1, names, shifted, fxmode = case['n0'], case['n1'], case['tfs'], case['shift'], case['grid']
+    form = case.get('flag', 'bool')      # how the shift flag is spelled: a truthy / falsy non-bool must mean the same
+    flag = {'bool': shifted, 'np.bool_': np.bool_(shifted), 'int': int(shifted)}[form]
     shape = (n0, n1)
     N = n0 * n1
-    conv = 'shift' if shifted else 'noshift'
+    conv = ('shift' if shifted else 'noshift') + ('' if form == 'bool' else f'[flag={form}]')
     # grids handed to the implementation, and the spacing the reference must use
     if fxmode == 'omitted':
         d = DX_IMPLICIT
@@ -287,7 +337,7 @@ def run_atf(case, seed, R):
         sig = f'atf:{conv}:array'
 
     def call(o, tfl=tfs):
-        return convolution.apply_transfer_functions(o, DX_IMPLICIT, list(tfl), shift=shifted, **kw)
+        return convolution.apply_transfer_functions(o, DX_IMPLICIT, list(tfl), shift=flag, **kw)
 
     amp = float(np.prod([max(1.0, float(np.abs(t).max())) for t in evald])) if evald else 1.0
     tol = 500 * EPS * amp
@@ -303,7 +353,7 @@ def run_atf(case, seed, R):
         err = np.abs(A - Aref).max()
         if err > tol:
             # judge modulo the permutation the implementation applies for the all-ones TF (reported by the identity cases)
-            Aid = impl_operator(R, shape, lambda o: convolution.apply_transfer_functions(o, DX_IMPLICIT, [np.ones(shape)], shift=shifted), sig)
+            Aid = impl_operator(R, shape, lambda o: convolution.apply_transfer_functions(o, DX_IMPLICIT, [np.ones(shape)], shift=flag), sig)
             P = as_perm(Aid, tol) if Aid is not None else None
             if P is not None and np.array_equal(P, np.eye(N)):
                 P = None
@@ -313,7 +363,8 @@ def run_atf(case, seed, R):
     # dense object: linear superposition, list == product (implementation against itself and against the reference)
     o = dense(shape, seed, 5, complex_=False)
     otol = tol * float(np.abs(o).sum())
-    got = R.call(call, o.copy(), sig=sig + ':exception')
+    # every array handed over explicitly, so that the call-hygiene layer sees object, transfer functions and grids
+    got = R.call(convolution.apply_transfer_functions, o.copy(), DX_IMPLICIT, list(tfs), shift=flag, sig=sig + ':exception', **kw)
     want = (np.eye(N) if identity else (Aref if P is None else P @ Aref)) @ o.ravel()
     R.expect_close(got, want.reshape(shape), otol, sig, f'dense object through {names}, shift={shifted}, grid={fxmode}, {shape}')
     if len(names) == 2:
@@ -386,6 +437,65 @@ def check_psf(R, psf, dx, form, label, s):
         R.expect_close(M * np.exp(1j * P), T, tol, f'otf:consistency:{s}', f'OTF != MTF exp(i PTF) for {label}')
 
 
+OTF_FNS = {'mtf': otf.mtf_from_psf, 'ptf': otf.ptf_from_psf, 'otf': otf.otf_from_psf}
+
+
+def judge_otf(R, name, res, content, sig, what):
+    """Compare the RichData returned by <name>_from_psf with the reference for the array CONTENT given."""
+    if res is FAILED:
+        return
+    want = ref_otf(content)
+    tol = 256 * EPS
+    D = getattr(res, 'data', None)
+    if name == 'mtf':
+        R.expect_close(D, np.abs(want), tol, sig, what)
+    elif name == 'otf':
+        R.expect_close(D, want, tol, sig, what)
+    else:
+        try:
+            P = np.asarray(D, dtype=float)
+            ok = P.shape == content.shape
+        except Exception:   # noqa
+            ok = False
+        if R.expect(ok, sig, what + ': PTF is not a real array of the PSF shape'):
+            R.expect_close(np.abs(want) * np.exp(1j * P), want, tol, sig, what)
+
+
+def run_mtf_reuse(case, seed, R):
+    """History of length 2-3 on ONE buffer: compute, overwrite the same ndarray in place, compute again."""
+    n0, n1, f1, f2, form, kind = case['n0'], case['n1'], case['first'], case['second'], case['form'], case['kind']
+    shape = (n0, n1)
+    dx = 0.5
+    A = np.abs(dense(shape, seed, 50, complex_=False)) + 0.05
+    B = np.abs(dense(shape, seed, 51, complex_=False)) + 0.05
+    B[n0 // 2, n1 // 2] += 1.0
+    buf = A.copy()
+    arg = (buf, dx) if form == 'array' else (RichData(data=buf, dx=dx, wavelength=None),)
+    r1 = R.call(OTF_FNS[f1], *arg, hygiene=False)
+    judge_otf(R, f1, r1, A, f'{f1}:value:{pp(shape)}', f'{f1}_from_psf on a fresh buffer ({form})')
+    if kind == 'interleaved':
+        other = B.copy()
+        r = R.call(OTF_FNS[f1], other, dx, hygiene=False)
+        judge_otf(R, f1, r, B, f'{f1}:value:{pp(shape)}', f'{f1}_from_psf on a second array')
+    if kind == 'unmodified':
+        content = A
+    elif kind == 'pedestal':
+        buf -= buf.min()           # the caller's pedestal subtraction, in place
+        content = buf.copy()
+    elif kind == 'roll':
+        buf[...] = np.roll(A, (1, 1), axis=(0, 1))
+        content = buf.copy()
+    else:                          # 'assign', 'interleaved': the next frame is written into the same buffer
+        buf[...] = B
+        content = B
+    r2 = R.call(OTF_FNS[f2], *arg, hygiene=False)
+    judge_otf(R, f2, r2, content, f'{f2}_from_psf:reused-buffer:{kind}',
+              f'{f1}_from_psf(buf) ; {kind} in place ; {f2}_from_psf(buf) must answer for the CURRENT contents ({form}, {shape})')
+    R.nontrivial(True)
+    R.outcome(kind)
+
+
+
 def run_mtf(case, seed, R):
     n0, n1, kind = case['n0'], case['n1'], case['kind']
     shape = (n0, n1)
@@ -432,6 +542,12 @@ def plan(tier, seed):
     lists = [[]] + [[a] for a in POOL] + [[a, b] for a in POOL for b in POOL]
     atf_cases = [{'n0': a, 'n1': b, 'tfs': l, 'shift': sh, 'grid': g}
                  for a, b in shapes for l in lists for sh in (True, False) for g in ('omitted', '2d', '1d')]
+    flag_cases = [{'n0': a, 'n1': b, 'tfs': l, 'shift': sh, 'grid': g, 'flag': fl}
+                  for a, b in shapes for l in lists if len(l) <= 1 for sh in (True, False) for g in ('omitted', '2d', '1d') for fl in ('np.bool_', 'int')]
+    dtype_cases = [{'n0': a, 'n1': b, 'dtype': dt} for a, b in shapes for dt in OBJ_DTYPES]
+    reuse_cases = [{'n0': a, 'n1': b, 'first': f1, 'second': f2, 'form': fm, 'kind': k}
+                   for a, b in shapes if a * b > 1 for f1 in OTF_FNS for f2 in OTF_FNS for fm in ('array', 'richdata')
+                   for k in ('unmodified', 'assign', 'pedestal', 'roll', 'interleaved')]
     mtf_cases = [{'n0': a, 'n1': b, 'kind': 'single'} for a, b in shapes]
     mtf_cases += [{'n0': a, 'n1': b, 'kind': 'pair', 'p': p} for a, b in shapes for p in range(a * b - 1)]
     mtf_cases += [{'n0': a, 'n1': b, 'kind': 'dense', 'salt': k} for a, b in shapes for k in (0, 1, 2)]
@@ -442,13 +558,22 @@ def plan(tier, seed):
         ScopeUnit('conv_dense', dense_cases, run_conv_dense,
                   f'every shape in [1..{B}]^2 x two seeded dense real triples: brute-force cyclic sum, commutativity, linearity in both arguments, '
                   'impulse identity and translation for EVERY impulse position in both argument orders, energy product, a non-negative pair'),
+        ScopeUnit('conv_dtype', dtype_cases, run_conv_dtype,
+                  f'every shape in [1..{B}]^2 x object dtype {{float64, float32, bool, uint8, uint16, int32}} (masks, camera counts) x PSF {{float64, float32}}: EVERY unit impulse of that dtype '
+                  '(at the top of its range, negative for int32) and one dense object, in both argument orders, against the float64 brute-force reference (eps of float32 where a float32 array takes part)'),
         ScopeUnit('atf', atf_cases, run_atf,
                   f'every shape in [1..{B}]^2 x ALL lists of length <= 2 from the pool {{ones, real, complex Hermitian, callables of (fx),(fy),(fr),(ft),'
                   '(fy,fx),(fr,ft),(fx,fy,fr,ft), functools.partial(fx,fy), bound method(fr)}} x shift {True,False} x grids {omitted, 2-D, 1-D}: '
                   'operator matrix over every unit impulse vs explicit-DFT reference with the TFs evaluated on the grid of the stated convention; '
                   'all-ones/empty list == identity; dense object; list == product (implementation against itself)'),
+        ScopeUnit('atf_flag_forms', flag_cases, run_atf,
+                  f'every shape in [1..{B}]^2 x ALL lists of length <= 1 from the pool x grids x the shift flag spelled np.bool_(True/False) and 1/0: judged exactly like shift=True/False'),
         ScopeUnit('mtf', mtf_cases, run_mtf,
                   f'every shape in [1..{B}]^2: PSF = EVERY unit impulse (array and RichData form), EVERY pair of impulses with weights {{1,3}}, '
                   'three seeded dense / sparse non-negative arrays: MTF==|OTF_ref|, MTF[o]==1 exactly, MTF<=1+256eps, cyclic point symmetry, '
                   'OTF==reference, PTF in radians consistent with the reference phase, OTF==MTF*exp(i*PTF)'),
+        ScopeUnit('mtf_reuse', reuse_cases, run_mtf_reuse,
+                  f'histories on ONE ndarray, every shape in [2..{B}]-sized grids x ordered pair (first, second) in {{mtf,ptf,otf}}^2 x form {{array, RichData wrapping the array}} x '
+                  '{unmodified, next frame assigned in place, pedestal subtracted in place, rolled in place, another array transformed in between then assigned}: '
+                  'the second call must answer for the CURRENT contents of the buffer (fresh explicit-DFT reference)'),
     ]
